@@ -26,10 +26,10 @@ void install_gmp_allocators();
 struct CallResult {
   int r; bool escaped; std::string exc;   // escaped: a C++ exception crossed the boundary
   int hcount, hcode; long allocs; bool fired;   // fired: the injected failure point was reached
-  bool crashed; int crash_sig;             // only for forked calls
+  bool crashed; int crash_sig; bool leaked;   // only for forked calls
 };
 CallResult guarded(const std::function<int()>& fn, long arm_k);
-CallResult forked(const std::function<int()>& fn);   // runs fn in a child process
+CallResult forked(const std::function<int()>& fn, bool leak_check);   // runs fn in a child process
 
 // ---- objects created through the C interface ------------------------------
 struct Obj {
